@@ -1,3 +1,4 @@
+import Mercure.Lemmas.BoltStore
 import Mercure.Lemmas.Retention
 import Mercure.Lemmas.Hub
 import Mercure.Lemmas.SysStream
@@ -79,6 +80,37 @@ theorem junction_complete (subs : List Sys.Sub) (ops : List Sys.Op) (wf : Sys.We
       b.enq = Sys.ideal b (Sys.reach Sys.Flags.repaired .bolt 0 subs ops sched).tr.accepted k :=
   Sys.Stream.bolt_stream_complete subs ops wf sched hq
 
+/-! ### at the level of the bytes in the bucket (Model/BoltStore) -/
+
+/-- The history scan of `dispatchHistory`, run on the bucket's bytes (keys compared and cut the way
+    the code does: `string(k[8:])`, `BigEndian.Uint64(k[:8]) > toSeq`; values decoded with the JSON
+    decoder), announces the id and replays the updates that `negotiate` computes on the abstract
+    history — for every bucket the hub can have written, every requested id (stored, repeated, a proper
+    suffix or prefix of a stored id, "earliest", unknown). Every other C07/C08 theorem is about `negotiate`. -/
+theorem byte_level_scan_is_negotiate (debug : Bool) (b : BoltStore.Bucket) (db : List (Nat × Update))
+    (req : Str) (toSeq : Nat) (wf : BoltStore.WellFormed debug b db)
+    (hr : ∀ e ∈ db, e.2.retry < 2 ^ 64) (hto : ∀ e ∈ db, e.1 ≤ toSeq) :
+    BoltStore.respMatches (BoltStore.scan (BoltStore.reqBytes req) toSeq b).1 (negotiate db req).1 ∧
+    BoltStore.decodeAll (BoltStore.scan (BoltStore.reqBytes req) toSeq b).2 = some (negotiate db req).2 :=
+  BoltStore.scan_refines BoltStore.rt_holds debug b db req toSeq wf hr hto
+
+/-- With the cut: whatever was stored after `toSeq` (after the registration) is not replayed. -/
+theorem byte_level_scan_respects_the_cut (debug : Bool) (b : BoltStore.Bucket) (db : List (Nat × Update))
+    (req : Str) (toSeq : Nat) (wf : BoltStore.WellFormed debug b db) (hr : ∀ e ∈ db, e.2.retry < 2 ^ 64) :
+    ∃ us, BoltStore.decodeAll (BoltStore.scan (BoltStore.reqBytes req) toSeq b).2 = some us ∧
+      us.Sublist (negotiate db req).2 ∧ us.length ≤ (db.filter (fun e => e.1 ≤ toSeq)).length :=
+  BoltStore.scan_cut BoltStore.rt_holds debug b db req toSeq wf hr
+
+/-- After a restart `getDBLastEventID` finds the id of the last stored update. -/
+theorem byte_level_last_event_id (debug : Bool) (st : BoltStore.St) (db : List (Nat × Update))
+    (wf : BoltStore.WellFormed debug st.bucket db) :
+    BoltStore.lastEventIdBytes st = db.getLast?.map (fun e => utf8Bytes e.2.id) :=
+  BoltStore.lastEventId_refines debug st db wf
+
+/-- The key layout modelled is the one in /repo (regenerated from bolt.go: `persist` builds
+    8-byte big-endian sequence ‖ id; `dispatchHistory` and `getDBLastEventID` read `k[8:]` / `k[:8]`). -/
+theorem repo_key_shape : Facts.boltKeyShape = "be64(seq)||id" := by decide +kernel
+
 end Mercure.C07
 
 #print axioms Mercure.C07.replay_after_retained_id
@@ -89,3 +121,7 @@ end Mercure.C07
 #print axioms Mercure.C07.C07_same_schedule_repaired
 #print axioms Mercure.C07.junction_gap_free_prefix
 #print axioms Mercure.C07.junction_complete
+#print axioms Mercure.C07.byte_level_scan_is_negotiate
+#print axioms Mercure.C07.byte_level_scan_respects_the_cut
+#print axioms Mercure.C07.byte_level_last_event_id
+#print axioms Mercure.C07.repo_key_shape
